@@ -509,6 +509,11 @@ func FieldsByType(n *types.Named, pred func(types.Type) bool) []*types.Var {
 	for i := 0; i < st.NumFields(); i++ {
 		if pred(st.Field(i).Type()) {
 			out = append(out, st.Field(i))
+		} else if f := st.Field(i); f.Embedded() {
+			// fields promoted from a struct of the same package embedded by value
+			if en, isN := f.Type().(*types.Named); isN && en.Obj().Pkg() == n.Obj().Pkg() && en != n {
+				out = append(out, FieldsByType(en, pred)...)
+			}
 		}
 	}
 	return out
